@@ -12,12 +12,14 @@ result = (exception or None, final state of the target, state after every dump c
           Context.locked, outcome of a follow-up job on the same context, what reading the target returns or None
           when it is not read, the raw file names in the target directory)."""
 import atexit
+import glob
+import json
 import itertools
 import os
 import pickle
 import shutil
 
-from common.coqlit import Err
+from common.coqlit import Err, uncanon
 import faultfs
 from faultfs import BEFORE, MKDIR, TORN
 from pysparkling import Context
@@ -254,6 +256,11 @@ def _modes(content_len):
 def generate(rng, tier):
     quick = tier == 'quick'
     cases = []
+    # committed minimal cases first (shrunk replays of the mutation self-test and the torn-marker corner)
+    root = os.environ.get('VERIF_ROOT', '/verif')
+    for path in sorted(glob.glob(os.path.join(root, 'corpus', 'C09', '*.json'))):
+        with open(path) as f:
+            cases.append(uncanon(json.load(f)['case']))
     nmax = 5 if quick else 6
     for saver in (TEXT, PICKLE):
         for n in range(1, nmax + 1):
@@ -308,6 +315,29 @@ def generate(rng, tier):
                 cf += [(i, a) for a in range(1, m + 1) if rng.random() < 0.5]
         cases.append((saver, m, parts, pre, wf, cf))
     return cases
+
+
+def extra_evidence():
+    return {
+        'fault_model': {
+            'write_fault_modes': ['before (nothing happens)', 'after mkdir (io.open raises inside the real Local.dump)',
+                                  'torn after j bytes (stream raises inside the real Local.dump)'],
+            'crash_points': 'dump call k = 0..n (parts in job order, then marker), counted over retries; '
+                            'computation of partition i on attempt a',
+            'observed': ['exception class', 'target state after every dump call and at the end (names + bytes)',
+                         'number of dump calls', 'Context.locked', 'follow-up job on the same context',
+                         'textFile/pickleFile read-back of marked or successfully saved targets', 'raw file names'],
+        },
+        'mutation_selftest': [
+            'marker dump moved before runJob (saveAsTextFile): link lemma text_steps_link fails + oracle marker-on-incomplete-save',
+            'runJob wrapped in try/finally with the marker dump in finally (saveAsPickleFile): kernel fails closed + '
+            'correspondence + oracle marker-on-incomplete-save',
+            'existence check moved after the single-partition fast path: link lemma fails + oracle existing-target-not-refused',
+            'Context.runJob releases the lock only on success: lock_release_link fails + oracle context-unusable-after-failed-save',
+            'Local.exists uses os.path.isfile: correspondence + oracle existing-target-not-refused (directory targets)',
+            'resultHandler=iter (write job never forced): correspondence + oracle marker-on-incomplete-save',
+        ],
+    }
 
 
 def shrink_candidates(case):
